@@ -37,14 +37,15 @@ pub fn run(args: &[String]) -> i32 {
         let res = dicts::resource_dir(&format!("c20"), &[("char.def", "/repo/sudachi/tests/resources/char.def")]);
         let sys = system_bytes(nl, nr);
         let upos = |c: &Value| match c["upos"].as_str().unwrap() { "absent" => String::new(), u => format!(r#","userPOS":"{}""#, u) };
-        let pos = |c: &Value| if c["pos"] == "known" { KNOWN_POS } else { UNKNOWN_POS };
+        // "short" / "long" / "empty": lists of another arity; the short one is a prefix of an existing POS
+        let pos = |c: &Value| match c["pos"].as_str().unwrap() { "known" => KNOWN_POS, "short" => r#"["名詞"]"#, "long" => r#"["名詞","普通名詞","一般","*","*","*","*"]"#, "empty" => "[]", _ => UNKNOWN_POS };
         let cfg = match kind {
             "simple" => format!(r#"{{"characterDefinitionFile":"char.def","oovProviderPlugin":[{{"class":"com.worksap.nlp.sudachi.SimpleOovPlugin","oovPOS":{},"leftId":{},"rightId":{},"cost":{}{}}}]}}"#,
                 pos(c), c["lid"], c["rid"], c["cost"], upos(c)),
             "regex" => format!(r#"{{"characterDefinitionFile":"char.def","oovProviderPlugin":[{{"class":"com.worksap.nlp.sudachi.RegexOovProvider","oovPOS":{},"leftId":{},"rightId":{},"cost":{},"regex":"[a-z0-9]+"{}}},{}]}}"#,
                 pos(c), c["lid"], c["rid"], c["cost"], upos(c), simple_fallback()),
             "mecab" => {
-                let p = if c["pos"] == "known" { "名詞,普通名詞,一般,*,*,*" } else { "未知,品詞,*,*,*,*" };
+                let p = match c["pos"].as_str().unwrap() { "known" => "名詞,普通名詞,一般,*,*,*", "short" => "名詞", "long" => "名詞,普通名詞,一般,*,*,*,*", "empty" => "", _ => "未知,品詞,*,*,*,*" };
                 std::fs::write(res.join("unk.def"), format!("DEFAULT,{},{},{},{}\n", c["lid"], c["rid"], c["cost"], p)).unwrap();
                 format!(r#"{{"characterDefinitionFile":"char.def","oovProviderPlugin":[{{"class":"com.worksap.nlp.sudachi.MeCabOovPlugin","charDef":"char.def","unkDef":"unk.def"{}}},{}]}}"#, upos(c), simple_fallback())
             }
